@@ -29,12 +29,40 @@ package resprot
 //@   ensures classified: r.Error != nil || len(r.Resource) != 0 || ref(r.Result) != 0
 //@   ensures empty: imp(len(data) == 0, r.Error != nil && r.Error.Code == "system.internalError")
 //@
+//@ # ---- the client-side accessors agree with the classification: an error response yields that very error, a resource
+//@ # response is refused, and only a result response is decoded (package-level error values are initialised: assumed)
+//@ pred sentinels() = !isNil(errResourceResponse) && !isNil(errInvalidModelResponse) && !isNil(errInvalidCollectionResponse)
+//@ func (r Response) ParseResult(v interface{}) (err error)
+//@   requires sentinels()
+//@   modifies all
+//@   ensures error.verbatim: imp(r.Error != nil, typeIs(err, "*res.Error") && ptrOf(err, "*res.Error") == r.Error)
+//@   ensures ok: imp(isNil(err), r.Error == nil && len(r.Resource) == 0)
+//@ func (r Response) AccessResult() (get bool, call string, err error)
+//@   requires sentinels()
+//@   modifies all
+//@   ensures error.verbatim: imp(r.Error != nil, typeIs(err, "*res.Error") && ptrOf(err, "*res.Error") == r.Error)
+//@   ensures ok: imp(isNil(err), r.Error == nil && len(r.Resource) == 0)
+//@   ensures denied: imp(!isNil(err), !get && len(call) == 0)
+//@ func (r Response) ParseModel(model interface{}) (q string, err error)
+//@   requires sentinels()
+//@   modifies all
+//@   ensures error.verbatim: imp(r.Error != nil, typeIs(err, "*res.Error") && ptrOf(err, "*res.Error") == r.Error)
+//@   ensures ok: imp(isNil(err), r.Error == nil && len(r.Resource) == 0)
+//@   ensures noquery: imp(!isNil(err), len(q) == 0)
+//@ func (r Response) ParseCollection(collection interface{}) (q string, err error)
+//@   requires sentinels()
+//@   modifies all
+//@   ensures error.verbatim: imp(r.Error != nil, typeIs(err, "*res.Error") && ptrOf(err, "*res.Error") == r.Error)
+//@   ensures ok: imp(isNil(err), r.Error == nil && len(r.Resource) == 0)
+//@   ensures noquery: imp(!isNil(err), len(q) == 0)
 //@ # ================================================================ SendRequest (C19)
 //@ props C19
 //@ # extn/extd: invocations of the timeout-extension callbacks and the duration passed last; lastsel: the select case taken last
 //@ ghostvar extn int
 //@ ghostvar extd int
 //@ ghostvar lastsel int
+//@ ghostvar sreq int
+//@ ghostvar extdue int
 //@ func callback.extendCB(self ref, d time.Duration)
 //@   modifies ghost.extn, ghost.extd
 //@   ensures extn == old(extn) + 1 && extd == d
@@ -47,6 +75,14 @@ package resprot
 //@   # nats.go hands a message to a channel subscription with a non-blocking send and drops it when the channel cannot
 //@   # take it: a response that arrives while SendRequest is not in its select is only kept by a buffered inbox channel
 //@   ghost call Conn.ChanSubscribe#1 before :: assert buffered: cap(arg_ch) >= 1
+//@   # what is published is the encoder's output for req (or the empty request for nil): a request that cannot be encoded is
+//@   # reported without subscribing, publishing or waiting
+//@   ghost entry :: set sreq = 0
+//@   ghost call Marshal#1 after :: set sreq = ite(isNil(arg_err), ref(arg_data), 0 - 1)
+//@   ghost call Conn.ChanSubscribe#1 before :: assert encoded: imp(!isNil(req), sreq == ref(data) && sreq != 0 - 1)
+//@   ghost call Conn.PublishRequest#1 before :: assert payload: same(arg_data, data) && imp(!isNil(req), sreq == ref(data))
+//@   # every timeout pre-response is told to every extension callback: extdue counts the notifications due (C19)
+//@   ghost call NewTimer#2 after :: set extdue = extdue + len(onTimeoutExtend)
 //@   # the waiting loop is entered only with the request published and the inbox subscribed
 //@   ghost call NewTimer#1 before :: assert published: isNil(err) && pubreq == old(pubreq) + 1 && subopen == old(subopen) + 1
 //@   # a timeout pre-response restarts the deadline with the announced duration before the callbacks are told
@@ -57,5 +93,7 @@ package resprot
 //@   ensures nowait: imp(tmn == old(tmn), r.Error != nil && r.Error.Code == "system.internalError")
 //@   ensures failed.early: imp(pubreq == old(pubreq), tmn == old(tmn))
 //@   ensures timeout: imp(tmn > old(tmn) && lastsel == 0, r.Error == res.ErrTimeout)
+//@   loop 1 invariant notified: extn - old(extn) == extdue - old(extdue)
+//@   loop 2 invariant notified: extn - old(extn) == extdue - old(extdue) - len(onTimeoutExtend) + rangeindex + 1
 //@   loop 1 invariant subopen == old(subopen) + 1 && tmn > old(tmn) && pubreq == old(pubreq) + 1 && timer != nil && ref(ch) != 0 && forall(k, 0, len(onTimeoutExtend), onTimeoutExtend[k] != nil)
 //@   loop 2 invariant -1 <= rangeindex && rangeindex < len(onTimeoutExtend) + 0 && subopen == old(subopen) + 1 && tmn > old(tmn) && pubreq == old(pubreq) + 1 && timer != nil && forall(k, 0, len(onTimeoutExtend), onTimeoutExtend[k] != nil)
